@@ -63,6 +63,7 @@ pub fn run(id: &str, tier: Tier, seed: u64, known: &Known) -> PropRun {
 
 pub fn replay(id: &str, part: &str, bytes: &[u8], case: &Value) -> Verdict {
     let mut st = crate::stats::Stats::new();
+    crate::eng::set_counter_wish_from_bytes(bytes);
     match id {
         "C01" => c01::replay(part, bytes, case, &mut st),
         "C02" => c02::replay(part, bytes, case, &mut st),
@@ -87,6 +88,7 @@ pub fn replay(id: &str, part: &str, bytes: &[u8], case: &Value) -> Verdict {
 
 /// Entry used by the libFuzzer targets in /verif/fuzz: runs the property's oracle on raw bytes.
 pub fn fuzz_entry(id: &str, bytes: &[u8]) -> Verdict {
+    crate::eng::set_counter_wish_from_bytes(bytes);
     match id {
         "C01" => c01::fuzz_entry(bytes),
         "C02" => c02::fuzz_entry(bytes),
